@@ -73,7 +73,7 @@ var c05Entries = []string{"LoadString", "LoadStringContext", "Load", "LoadContex
 
 var c05Faults = []string{"none", "none", "error", "type-error", "arity-error", "unbound", "stack-limit", "nesting-limit", "macro-limit", "step-budget", "cancel",
 	"panic-arg", "panic-in-handler", "panic-under-ignore-errors", "panic-in-map", "panic-in-macro", "error-in-handler", "in-package-then-fail", "rethrow-outside", "tail-iter-limit",
-	"empty-source", "cross-package-fail-mid", "cross-package-fail-mid-swallowed", "cross-package-macro-fail-mid", "bad-handler", "bad-handler-swallowed", "fail-in-binding-form"}
+	"empty-source", "cross-package-fail-mid", "cross-package-fail-mid-swallowed", "cross-package-macro-fail-mid", "bad-handler", "bad-handler-swallowed", "fail-in-binding-form", "panic-direct-callback"}
 
 // c05Effect returns the k-th effect statement of a step (atomic, followed by a
 // completion probe) and the same statement without probe for the twin.
@@ -137,6 +137,17 @@ func c05FaultForm(kind string, r *fw.RNG) string {
 		return fw.Pick(r, []string{"(other-pkg:fail-mid 1)", "(other-pkg:fail-mid-deep 2)", "(list 1 (other-pkg:fail-mid 3))"})
 	case "cross-package-macro-fail-mid":
 		return "(other-pkg:mac-fail-mid 1)"
+	case "panic-direct-callback":
+		// the panicking host function is itself the callee a builtin invokes (no lisp
+		// frame in between whose evaluation would recover the panic first)
+		// (always inside a progn: EvalSExpr, FunCall, SpecialOpCall and MacroCall are the
+		// low-level call steps and recover nothing themselves - a host function that
+		// panics when the HOST calls it through them directly panics in the host; the
+		// recovery the documentation promises is that of evaluation, which begins at
+		// the first form evaluated inside)
+		return "(progn " + fw.Pick(r, []string{"(map 'list verif:panic '(1 2))", "(funcall verif:panic 1)", "(apply verif:panic '(1))", "(foldl verif:panic 0 '(1 2))", "(select 'list verif:panic '(1 2))",
+			"(funcall verif:nilmap)", "(stable-sort verif:panic (list 2 1))", "(f1 (map 'vector verif:panic (vector 1)))", "(unpack verif:panic '(1 2))", "(handler-bind ((my-err (lambda (c &rest a) 0))) (funcall verif:panic))",
+			"(all? verif:panic '(1))", "(reject 'list verif:panic '(1))", "(run-thunk verif:nilmap)"}) + ")"
 	case "bad-handler":
 		// the clause that matches has a handler expression that fails or is not a function
 		return fw.Pick(r, []string{"(handler-bind ((condition no-such-handler)) (error 'x \"boom\"))", "(handler-bind ((x 42)) (error 'x 1))",
